@@ -678,11 +678,31 @@ func PrefixDigestRule(w *World, r *Result, rule string, tainted map[ssa.Value]bo
 				}
 				// the hash input: argument of the Write call on the same hash object
 				inputOK := false
+				sharedHash := ""
 				for _, b2 := range fn.Blocks {
 					for _, i2 := range b2.Instrs {
 						c, ok := i2.(*ssa.Call)
 						if !ok || !c.Call.IsInvoke() || c.Call.Method.Name() != "Write" {
 							continue
+						}
+						// the digest object is made for this file: one that is kept (package level, a field)
+						// still holds what earlier files wrote into it
+						recvV := c.Call.Value
+						for {
+							if mi, ok := recvV.(*ssa.MakeInterface); ok {
+								recvV = mi.X
+							} else if ci, ok := recvV.(*ssa.ChangeInterface); ok {
+								recvV = ci.X
+							} else {
+								break
+							}
+						}
+						if ld, ok := recvV.(*ssa.UnOp); ok && ld.Op == token.MUL {
+							switch ld.X.(type) {
+							case *ssa.Global, *ssa.FieldAddr:
+								sharedHash = w.Pos(c.Pos())
+								continue
+							}
 						}
 						if ex, ok := c.Call.Args[0].(*ssa.Extract); ok && ex.Index == 0 {
 							if rc, ok := ex.Tuple.(*ssa.Call); ok && calleeName(rc) == "os.ReadFile" && !tainted[c.Call.Args[0]] {
@@ -729,6 +749,8 @@ func PrefixDigestRule(w *World, r *Result, rule string, tainted map[ssa.Value]bo
 					bad = append(bad, "location information")
 				}
 				switch {
+				case sharedHash != "":
+					r.Bad(rule, "prefix:content-hash", sharedHash, "the digest object the file content is written to is kept between files (package level or a field) and never made anew: the prefix of a file depends on the files digested before it, and one file reached along two import paths gets two prefixes")
 				case !hashed || !inputOK:
 					r.Bad(rule, "prefix:content-hash", w.Pos(st.Pos()), fmt.Sprintf("the namespace prefix is not the digest of exactly the bytes read from the file (hash %v, input is file content only %v; depends on %v)", hashed, inputOK, names))
 				case len(bad) > 0:
